@@ -116,6 +116,18 @@ MixedLenMaps(b) ==
         o \in {"btree", "hash"},
         X \in {{Ke, KEvtKind}, {Kb, KTs, Ke, KEvtKind}, {Ka, Kb, KSpanId, KTs, KTsStart}, {K_, Ke, Ka, KTraceId}}}
 
+\* The Current of `emit_traceparent::TraceparentCtxt<ThreadLocalCtxt>` as a ctxt-snapshot carrier,
+\* without an active sampled traceparent: one frame holding well-known id keys, pushed directly
+\* on the wrapped ThreadLocalCtxt (tp = "inner") or through the TraceparentCtxt (tp = "outer": a
+\* trace_id / span_parent without a span_id is not an incoming span and is passed on).  The view
+\* enumerates the wrapped context's properties; lookup must agree with that.
+TpCtxts(b) ==
+    {[op |-> "ctxt", tp |-> w, kvs |-> KVs(ks, b)] :
+        w \in {"inner", "outer"},
+        ks \in {<<KTraceId>>, <<KTraceId, Kb>>, <<KSpanParent, KTraceId>>, <<Ka>>}}
+    \cup {[op |-> "ctxt", tp |-> "inner", kvs |-> KVs(ks, b)] :
+        ks \in {<<KSpanId>>, <<KSpanId, KTraceId, KSpanParent>>}}
+
 \* ThreadLocalCtxt snapshots after 2-3 nested pushed frames with overlapping keys.  Which
 \* frame's value a snapshot holds for a repeated key is C03's subject: every resolution
 \* (each key takes the value of any frame that has it) is a collection of its own here,
@@ -310,7 +322,7 @@ MC_Seeds(m) ==
     IF Which = "big" THEN BigLeaves \cup BigJoins
     ELSE IF Which = "views" THEN AllViews \cup {[op |-> o, t |-> x] : o \in {"dedup", "erased"}, x \in AllViews}
                             \cup {[op |-> "and", l |-> x, r |-> y] : x \in ViewRights(70), y \in AllViews}
-                            \cup ExtentSrcLeaves \cup MixedLenMaps(30)
+                            \cup ExtentSrcLeaves \cup MixedLenMaps(30) \cup TpCtxts(30)
                             \cup {[op |-> "and", l |-> [op |-> "pair", kvs |-> KVs(<<KEvtKind>>, 70)], r |-> y] : y \in MixedLenMaps(30)}
                             \cup {[op |-> "and", l |-> x, r |-> y] :
                                      x \in {[op |-> "pair", kvs |-> KVs(<<KTs>>, 70)],
